@@ -135,3 +135,20 @@ Definition cm_chain_agrees (a : zaff) (ops : list cop) (x : list Z)
       match cm_apply Z c x with Ok v => zlist_eqb v y | Err _ => false end
   | _, _ => false
   end.
+
+(* ---------------------------------------------------------------- axis identification (Z instance) *)
+From NV.C01 Require Import Axes.
+Definition zfix0 := fix0 Z 0%Z 1%Z Z.eqb.
+Definition zdrop_by_id := drop_by_id Z 0%Z 1%Z Z.eqb.
+Definition io_axis_agrees (ins outs : list string) (ornts : list (option nat)) (ax : axis_id)
+           (expected : axres) : bool :=
+  axres_eqb (io_axis_indices ins outs ornts ax) expected.
+Definition fix0_agrees (M E : list (list Z)) : bool := zmat_eqb (zfix0 M) E.
+(* expected: None = KeyError *)
+Definition drop_id_agrees (a : zaff) (ax : axis_id) (ornts : list (option nat)) (f : bool)
+           (expected : option (res zaff)) : bool :=
+  match zdrop_by_id a ax ornts f, expected with
+  | None, None => true
+  | Some r, Some e => res_eqb r e
+  | _, _ => false
+  end.
